@@ -40,6 +40,9 @@ try:
                     evaluation=dict(how='tools/eval_seeded.py: patch applied in the scratch worktree %s (VERIF_REPO), every claimed quick check run, worktree reverted' % WT,
                                     repo_head=subprocess.check_output(['git', '-C', '/repo', 'rev-parse', '--short', 'HEAD']).decode().strip(),
                                     results=results, detected_by=det, detected_by_own_property_check=prop in det))
+        np = os.path.join(sd, 'miss_note.txt')
+        if os.path.exists(np):
+            meta['evaluation']['note'] = open(np).read().strip()
         json.dump(meta, open(os.path.join(sd, 'meta.json'), 'w'), indent=1)
         print(d, 'detected_by', det, flush=True)
 finally:
